@@ -38,7 +38,7 @@ RULE = (
     "actually fired or a damaged/foreign image was placed"
 )
 LEVEL_TEXT = (
-    "Fault enumeration at the storage seam: per sampled configuration every crash point and torn write of the real writer's recorded trace is enumerated, every byte offset (thorough) or a dense stride plus all member/header boundaries (quick) is truncated/flipped, blocks are zeroed, un-synced writes are lost, foreign archives differing in exactly one field are placed under the requested name, and seeded multi-fault histories end with two fault-free requests (bounded liveness). Outcomes are judged by a cache reference model. Configurations, lost-write subsets and histories are sampled by seed.",
+    "Fault enumeration at the storage seam: per sampled configuration every crash point and torn write of the real writer's recorded trace is enumerated, every byte offset of archives up to 12000 bytes and a 12000-offset sweep plus all boundaries beyond (thorough) or a dense stride plus all member/header boundaries (quick) is truncated/flipped, blocks are zeroed, un-synced writes are lost, foreign archives differing in exactly one field are placed under the requested name, and seeded multi-fault histories end with two fault-free requests (bounded liveness). Outcomes are judged by a cache reference model. Configurations, lost-write subsets and histories are sampled by seed. Beyond single files: one-field neighbours of the request use the same cache directory alternately (separate processes, one process, one re-assigned configuration object, a neighbour with the survivor count, a 1000/1024-maze pair), and one process keeps requesting while the file is damaged under it or while it edits the dataset it was handed. Every configuration is pinned to an interpreter slot, one slot in three runs under python -O.",
     "Trusted: stdlib zipfile as the (real) reader/writer; the crash model (post-crash image = prefix/subset of the Python-level write log, holes read as zeros); SimClock pins the archive bytes; concurrent writers are out of scope (DESIGN C11).",
 )
 
